@@ -1,6 +1,7 @@
 ------------------------------ MODULE GenRepl ------------------------------
 (* all texts of at most MaxLen characters over Alpha, with each of the       *)
-(* position-list patterns, for each rule list of the catalogue; invariants   *)
+(* position-list patterns, for each rule list of the catalogue (incl. right-  *)
+(* hand sides with backslashes, which are literal text); invariants   *)
 (* check that the specified replacement itself has the properties of C13.    *)
 EXTENDS Replace, Json
 CONSTANTS MaxLen, NAlpha
@@ -18,7 +19,9 @@ RuleLists == <<
   << <<"b"," ","a"," ","&"," ","a"," ","b">>, <<"a"," ","&">> >>,
   << <<"("," ","&"," ","[">>, <<"a","("," ","&"," ","x">> >>,
   << <<"a","b"," ","&"," ","a">> >>,
-  << <<"a"," ","a"," ","&"," ","a">> >> >>
+  << <<"a"," ","a"," ","&"," ","a">> >>,
+  << <<"a"," ","&"," ",BS,"1">> >>,
+  << <<"b"," ","&"," ","a",BS,BS,"b">>, <<"a"," ","&"," ",BS,"e","u","r","o">> >> >>
 Pattern(p, n) == [i \in 1..n |-> CASE p = 1 -> i [] p = 2 -> n + 1 - i [] p = 3 -> 7 [] p = 4 -> ((i * 3) % 5) + 1]
 VARIABLES txt, pat, rl, phase
 vars == <<txt, pat, rl, phase>>
